@@ -60,6 +60,10 @@ CHECKS = {
   text="Bounded exhaustive enumeration at two scales: library level (Searcher + Standard printer; every single-NUL placement in a 4-line file (pairs on the thorough tier) x detection quit/convert/none x roll-buffer capacities 1..6 x read sizes x slice x multi-line x context) and the real rg binary (the same files plus 130 KiB files with a NUL around the 64 KiB sniff boundary, including the straddling line as a matching / context line; implicit / explicit / stdin x default / --binary / --text x mmap / no mmap x ten output modes). Oracle: no NUL on the output unless text mode, the statement's outcome table for standard output, --text == detection disabled.",
   note="Not judged: --null-data (detection disabled by design); which prefix of the text-mode output is printed before the cut-off (strategy dependent by design).",
   tech="bounded exhaustive enumeration of NUL placements x strategies x buffer/read histories x CLI modes against the documented outcome table"),
+ "C15": dict(cat="fault_enumeration", ref="DESIGN.md §3-E5, §4 C15",
+  text="Exhaustive single-fault enumeration on the real rg binary: for 3 trees x 6 modes x -j1 / -j2 (the latter serialised by the replay scheduler), the run is repeated under `strace -e inject` with one failing syscall at EVERY index of the fault-free run's openat / read / getdents64 / write sequence (EACCES, ENOENT, EIO, EPIPE); decision table: diagnostic naming the failed path, exit status 2 (0 for -q with a match), other files' results intact; EPIPE on stdout: status 0, no diagnostic, no further file opened. Plus invalid arguments (status 2, empty stdout), real faults as uid 65534 (mode 000, dangling symlinks, missing paths, -q, --no-messages), and the stdout consumer closing after k bytes for every k in seven variants.",
+  note="Trusted: strace's injector; setpriv. Faults landing on start-up files (shared libraries, locale, /proc) are skipped by looking at the injected call's path.",
+  tech="exhaustive fault enumeration: one injected fault at every syscall index of a history, every pipe-closing point"),
  "C16": dict(cat="fault_enumeration", ref="DESIGN.md §4 C16",
   text="Exhaustive crash-point enumeration on the real searcher: for every input up to a length bound, every configuration / binary mode / matcher path / strategy, the search is re-run once per result index k with the sink answering stop and once answering error (for every event kind: begin, matched, context, context_break, binary_data), and once per read index j with the reader failing and with the reader returning Interrupted; plus -m N through the standard printer for every N. Oracle: exact prefix of the uninterrupted event list, finish exactly once after a stop and never after an error, the injected error is what the caller gets.",
   note="Trusted: the uninterrupted run of the same strategy as the reference list (C02/C03 check that list itself). Not judged: -m N in multi-line mode when two matching lines are adjacent (they are one block by design, DESIGN.md §8).",
